@@ -177,6 +177,9 @@ func c16Combine() {
 		switch {
 		case simrt.Chance(1, 4):
 			simrt.Probe("nil_other")
+		case primary != nil && simrt.Chance(1, 8):
+			others[i] = primary // the primary passed again among the others
+			simrt.Probe("primary_among_others")
 		case i > 0 && others[i-1] != nil && simrt.Chance(1, 8):
 			others[i] = others[i-1] // the same context passed twice
 		default:
